@@ -18,7 +18,7 @@ class Cfg:
         self.ctor = c[0][-1] if not c[0][-1].isdigit() else ''     # how the processor is built (see d_batch.cc)
         self.maxq, self.maxb, self.nprod, self.adds = int(c[0].rstrip('rfga')), int(c[1]), int(c[2]), int(c[3])
         self.fl = '' if c[4] == '-' else c[4]
-        self.nshut = int(c[5])
+        self.nshut = int(c[5].rstrip('tzu'))      # optional suffix: how Shutdown is called (timeout finite / zero / 1us)
         self.xs = '' if c[6] == '-' else c[6]
         self.acts = toks[1:]
         self.nthreads = 1 + self.nprod + len(self.fl) + self.nshut
@@ -205,8 +205,15 @@ def gen_schedules(rng, tier, kinds=('bsp', 'blp'), flush=True, shut=True):
                 toks.append(f't{t}')
         # every way of building the processor (two / three constructors, two factory overloads) must configure the same one
         ctor = rng.choice(['', '', 'r', 'f', 'g'] + (['a'] if kind == 'blp' else []))
-        line = f'{kind} {maxq}{ctor} {maxb} {nprod} {adds} {fl or "-"} {nshut} {xs} ; ' + ' ; '.join(toks)
-        out.append(Case(line, 'd_bsp' if kind == 'bsp' else 'd_blp', (kind, 'random', f'fl{len(fl)}sh{nshut}', 'ctor-' + (ctor or 'plain'))))
+        # every timeout value (zero, finite, max): a ForceFlush timeout below schedule_delay clips the caller's wait
+        # ('h' half a delay, 'u' one microsecond); Shutdown with a finite / zero / 1us timeout instead of the default max
+        if fl and rng.random() < 0.2:
+            k = rng.randrange(len(fl))
+            fl = fl[:k] + rng.choice('hu') + fl[k + 1:]
+        shto = rng.choice(['', '', '', 't', 'z', 'u']) if nshut else ''
+        line = f'{kind} {maxq}{ctor} {maxb} {nprod} {adds} {fl or "-"} {nshut}{shto} {xs} ; ' + ' ; '.join(toks)
+        out.append(Case(line, 'd_bsp' if kind == 'bsp' else 'd_blp', (kind, 'random', f'fl{len(fl)}sh{nshut}', 'ctor-' + (ctor or 'plain'))
+                        + (('shutdown-timeout-' + shto,) if shto else ()) + (('flush-timeout-below-delay',) if set(fl) & set('hu') else ())))
     return out
 
 
@@ -435,6 +442,14 @@ def batch_corpus():
     for kind, ctors in (('bsp', ['', 'r', 'f', 'g']), ('blp', ['', 'r', 'f', 'g', 'a'])):
         for c in ctors:
             out.append(Case(f'{kind} 4{c} 1 1 4 - 0 s ; {burst}', 'd_bsp' if kind == 'bsp' else 'd_blp', ('corpus', 'ctor-' + (c or 'plain')), 'corpus'))
+    # every timeout value: a ForceFlush whose timeout is below schedule_delay (its wait is clipped and expires: 'o2'), and
+    # Shutdown called with a finite / zero / one-microsecond timeout
+    for kind in ('bsp', 'blp'):
+        hn = 'd_bsp' if kind == 'bsp' else 'd_blp'
+        for f in 'hu':
+            out.append(Case(f'{kind} 3 2 1 3 {f} 0 s ; ' + ' ; '.join(['t1'] * 25 + ['t2'] * 8 + ['o2', 't2', 't2', 't2'] + ['t0'] * 30), hn, ('corpus', 'flush-timeout-below-delay'), 'corpus'))
+        for z in 'tzu':
+            out.append(Case(f'{kind} 3 2 1 3 i 2{z} sS ; ' + ' ; '.join(['t1'] * 25 + ['t3'] * 6 + ['t4'] * 6 + ['t0'] * 30 + ['t3'] * 10 + ['t4'] * 10), hn, ('corpus', 'shutdown-timeout-' + z), 'corpus'))
     return out
 
 
